@@ -263,6 +263,10 @@ func (r *Runner) setVarWithIndex(prev expand.Variable, name string, index syntax
 	// is non-nil; nested arrays are forbidden.
 	valStr := vr.Str
 
+	// Assigning to an element sets the variable, even if it was only
+	// declared or entirely unset before.
+	prev.Set = true
+
 	var list []string
 	var indexes []int
 	switch prev.Kind {
